@@ -7,6 +7,8 @@ INVARIANT Borders
 INVARIANT ComputeZip
 INVARIANT OutIsPrefix
 INVARIANT LastIsLastInside
+INVARIANT HistContext
+INVARIANT FlowContexts
 INVARIANT IterOnceEach
 INVARIANT MapShape
 PROPERTY NoCrossTalk
